@@ -339,6 +339,18 @@ theorem evict_counts (slots k' : Nat) (l : List Entry) :
   · split <;> simp [nStarted, nFinished]
   · simp [nStarted, nFinished]
 
+theorem expire_events (k now : Nat) (l : List Entry) : ∀ x ∈ (expire k now l).2, x = Ev.expired k := by
+  intro x; unfold expire; split
+  · split <;> simp
+  · simp
+
+theorem evict_events (slots : Nat) (l : List Entry) : ∀ x ∈ (evictIfOver slots l).2, ∃ k, x = Ev.evicted k := by
+  intro x; unfold evictIfOver; split
+  · split
+    · simp
+    · simp only [List.mem_singleton]; intro h; exact ⟨_, h⟩
+  · simp
+
 /-! ### the invariant -/
 
 structure Inv (cfg : Config) (s : State) (tr : List Ev) : Prop where
